@@ -150,6 +150,9 @@ class CIACache(Singleton):
             if pair_filter is not None:
                 if pairname not in pair_filter:
                     continue
+            if pairname in self.cia_dict:
+                # the first container found for a pair is the one served
+                continue
             op = PickleCIA(files, pairname)
             self.add_cia(op)
 
@@ -166,6 +169,9 @@ class CIACache(Singleton):
             if pair_filter is not None:
                 if pairname not in pair_filter:
                     continue
+            if pairname in self.cia_dict:
+                # e.g. H2-H2.db and H2-H2_2011.cia side by side
+                continue
             op = HitranCIA(files)
             self.add_cia(op)
 
